@@ -12,8 +12,8 @@ namespace LunarVerif.C15
 /-- summary of a set of entries -/
 structure Sem where
   cnt : Nat
-  sd : Nat
-  st : Nat
+  sd : Int
+  st : Int
   stc : Nat → Nat
   mn : Option Nat
   mx : Nat
